@@ -800,7 +800,8 @@ func (s *State) extendFunctionEnv(
 		// By definition function parameters are local copies, deref argument values:
 		pval := object.Value(args[paramIdx])
 		needVariable := true
-		if !s.NoReg && pval.Type() == object.INTEGER {
+		// Constant-named parameters always go through the checking setter below, never a register.
+		if !s.NoReg && pval.Type() == object.INTEGER && !object.Constant(param.Value().Literal()) {
 			// We will release all these registers just by returning/dropping the env.
 			_, nbody, ok := setupRegister(env, param.Value().Literal(), pval.(object.Integer).Value, newBody)
 			if ok {
@@ -940,7 +941,9 @@ func (s *State) evalForInteger(fe *ast.ForExpression, start *int64, end int64, n
 	var newBody ast.Node
 	var register object.Register
 	newBody = fe.Body
-	if name != "" && !s.NoReg {
+	// A constant-named loop variable is never a register: it goes through the checking setter like with NoReg.
+	useReg := name != "" && !s.NoReg && !object.Constant(name)
+	if useReg {
 		var ok bool
 		register, newBody, ok = setupRegister(s.env, name, int64(startValue), fe.Body)
 		if !ok {
@@ -949,7 +952,7 @@ func (s *State) evalForInteger(fe *ast.ForExpression, start *int64, end int64, n
 		ptr = register.Ptr()
 	}
 	for i := startValue; i < endValue; i++ {
-		if s.NoReg && name != "" {
+		if !useReg && name != "" {
 			s.env.Set(name, object.Integer{Value: int64(i)})
 		}
 		if ptr != nil {
